@@ -136,6 +136,7 @@ class C14:
         subs = [{"flags": flags, "text": text, "cbfail": k, "pre": pre} for k in ks]
         r, res = run_subs(get_ex, decl, subs)
         fails, keys, cc = [], [], {}
+        crashed_already = [False]
         for k, rs in zip(ks, res):
             m = Model(schema, flags)
             init_log = len(m.cblog)
@@ -148,7 +149,10 @@ class C14:
                 keys.append(h64([text, k, reg]))
             cc["k=0" if k == 0 else "k>0"] = cc.get("k=0" if k == 0 else "k>0", 0) + 1
             sig = msg = None
+            if e is None and crashed_already[0]:
+                continue            # only the first sub-case without a result is the victim of the crash
             if e is None:
+                crashed_already[0] = True
                 sig, msg = "die/%s" % r.death(), "child died: %s\n%s" % (r.death(), r.stderr.decode("latin-1")[:1200])
             else:
                 alog = norm_actual(e.get("cb"))
